@@ -2,6 +2,7 @@ SPECIFICATION Spec
 CONSTANTS Thorough = FALSE
           MaxSegs = 64
           MaxBytes = 65535
+          CrossSession = FALSE
           Design = "aswritten"
 INVARIANTS Link
 CHECK_DEADLOCK FALSE
